@@ -23,6 +23,13 @@ def cases(tier):
             r.choice(['error', 'dedup', 'keep'])
         c = dict(gen.params(r, coarse=(i % 5 != 0)), events=es, policy=policy, stream='dense',
                  n_jobs=r.choice([1, 2, 3]), per_job=r.choice([1, 2, 10]), per_file=r.choice([2, 3, 10000000]))
+        if i % 4 == 1:
+            # the other documented input forms: generator for the parallel learners (spooled to a
+            # file: the empty outcome field becomes the outcome ''), path for dict_ndl
+            c['form_ndl'] = 'generator'
+            c['form_dict'] = 'path'
+            c['events'] = gen.file_norm(es)
+            c['stream'] = 'dense_other_input_form'
         out.append((c, LEARNERS))
     # per-cue alpha (dict_ndl only)
     for i in range(15 if tier == 'quick' else 150):
